@@ -472,4 +472,15 @@ def r_enum(ctx):
     repo_idioms(ctx, "C01.R7", ('connection', 'server', 'client'))
 
 
-RULES = [("C01.R1", r1), ("C01.R2", r2), ("C01.R3", r3), ("C01.R4", r4), ("C01.R5", r5), ("C01.R6", r6), ("C01.R7", r_enum)]
+def r8(ctx):
+    """the AES-GCM helpers are thin wrappers: the assumption 'decrypt_gcm raises for everything not sealed with this key, nonce
+    and AAD' is about the library primitive, so the wrapper must not stand between the primitive's verdict and from_bytes"""
+    from .common import thin_wrapper
+    thin_wrapper(ctx, "C01.R8", "crypto:decrypt_gcm", "decrypt", (1, 3, 2))     # AESGCM(key).decrypt(iv, data, aad)
+    thin_wrapper(ctx, "C01.R8", "crypto:encrypt_gcm", "encrypt", (1, 3, 2))
+    for q in ("crypto:decrypt_gcm", "crypto:encrypt_gcm"):
+        fi = ctx.fn(q)
+        k = [c for c in walk_own(fi.node) if isinstance(c, ast.Call) and norm(c.func) == "AESGCM"]
+        ctx.check(len(k) == 1 and [norm(a) for a in k[0].args] == [fi.params[0]], "C01.R8", fi, "%s keys AESGCM with its key parameter" % fi.name, witness=[norm(c) for c in k])
+
+RULES = [("C01.R1", r1), ("C01.R2", r2), ("C01.R3", r3), ("C01.R4", r4), ("C01.R5", r5), ("C01.R6", r6), ("C01.R7", r_enum), ("C01.R8", r8)]
